@@ -104,7 +104,7 @@ func encodeJsonArray(jsonArray []any, largeEncoding bool) (typeId byte, encodedA
 			}
 			valueEntriesBuffer = appendForEncoding(valueEntriesBuffer, uint32(encodedValue[0]), largeEncoding)
 		} else {
-			if !largeEncoding && nextValuesOffset > maxOffsetSize-uint32(len(encodedValue)) {
+			if !largeEncoding && (uint32(len(encodedValue)) > maxOffsetSize || nextValuesOffset > maxOffsetSize-uint32(len(encodedValue))) {
 				return 0, nil, fmt.Errorf("offset too large for small array encoding")
 			}
 
@@ -167,12 +167,12 @@ func encodeJsonObject(jsonObject map[string]any, largeEncoding bool) (typeId byt
 		//       for JSON objects.
 		encodedValue := []byte(key)
 
-		if !largeEncoding && nextKeysOffset > maxOffsetSize-uint32(len(encodedValue)) {
+		if !largeEncoding && (uint32(len(encodedValue)) > maxOffsetSize || nextKeysOffset > maxOffsetSize-uint32(len(encodedValue))) {
 			return 0, nil, fmt.Errorf("offset too large for small object encoding")
 		}
 
 		keyEntriesBuffer = appendForEncoding(keyEntriesBuffer, nextKeysOffset, largeEncoding)
-		keyEntriesBuffer = append(keyEntriesBuffer, byte(len(encodedValue)), byte(len(encodedValue)<<8))
+		keyEntriesBuffer = append(keyEntriesBuffer, byte(len(encodedValue)), byte(len(encodedValue)>>8))
 		keysBuffer = append(keysBuffer, encodedValue...)
 		nextKeysOffset += uint32(len(encodedValue))
 	}
@@ -199,7 +199,7 @@ func encodeJsonObject(jsonObject map[string]any, largeEncoding bool) (typeId byt
 			}
 			valueEntriesBuffer = appendForEncoding(valueEntriesBuffer, uint32(encodedValue[0]), largeEncoding)
 		} else {
-			if !largeEncoding && nextValuesOffset > maxOffsetSize-uint32(len(encodedValue)) {
+			if !largeEncoding && (uint32(len(encodedValue)) > maxOffsetSize || nextValuesOffset > maxOffsetSize-uint32(len(encodedValue))) {
 				return 0, nil, fmt.Errorf("offset too large for small object encoding")
 			}
 
